@@ -125,6 +125,9 @@ func (r *rig) judge() *gx.Outcome {
 	for i := 0; i < r.accepted; i++ {
 		id := msgID(i)
 		switch n := len(byID[id]); {
+		case n == 0 && p.SClose && r.closeReturned:
+			// Close() drains Successes() itself: a message still on its way when the application called Close() may have
+			// succeeded without anybody seeing it - not judged
 		case n == 0:
 			out.Violate("C01", "no-outcome"+below, "message %s was accepted on Input() but never got a success or error event (%s); %s", id, cfg, summary())
 		case n > 1:
